@@ -252,12 +252,20 @@ func init() {
 			minF := c.LookupField("lint.aritySpec.min")
 			maxF := c.LookupField("lint.aritySpec.max")
 			tableVar := p.Types.Scope().Lookup("builtinArityTable")
-			userDefined := c.LookupPkgFunc("lint.UserDefined")
 			var userDefsObj types.Object
 			ast.Inspect(lit.Body, func(n ast.Node) bool {
 				if as, ok := n.(*ast.AssignStmt); ok && len(as.Lhs) == 1 && len(as.Rhs) == 1 {
-					if ce, ok := ast.Unparen(as.Rhs[0]).(*ast.CallExpr); ok && userDefined != nil && originOf(Callee(info, ce)) == userDefined {
-						userDefsObj = identObj(info, as.Lhs[0])
+					// the file-wide exemption set: a string-keyed bool map built by a call
+					// over the pass's expressions (which names it may hold is
+					// ARITY.params-scoped's question, not this rule's)
+					if _, ok := ast.Unparen(as.Rhs[0]).(*ast.CallExpr); ok {
+						if o := identObj(info, as.Lhs[0]); o != nil {
+							if mt, ok := o.Type().Underlying().(*types.Map); ok {
+								if b, ok := mt.Key().Underlying().(*types.Basic); ok && b.Kind() == types.String {
+									userDefsObj = o
+								}
+							}
+						}
 					}
 				}
 				return true
